@@ -74,6 +74,11 @@ def jobs(tier):
     add('weighted_mi_job', 'weighted_mi[3 frames,states 2/2]', features=[[0, 0], [1, 1], [0, 1]], n_states=(2, 2))
     add('weighted_mi_job', 'weighted_mi[3 frames,states 2/3, one state never taken]', features=[[0, 0], [1, 2], [0, 2]], n_states=(2, 3))
     add('weighted_mi_job', 'weighted_mi[3 features, states 2/3/2]', features=[[0, 0, 1], [1, 2, 0], [0, 2, 1]], n_states=(2, 3, 2))
+    # arguments are not mutated: integer index ARRAYS handed to RaggedArray fancy indexing (negative entries are normalised
+    # internally - on a copy)
+    for lv, wr in (((2, 1), False), ((1, 3, 2), False), ((2, 2), True)):
+        J.append(dict(module='harness.ragged', func='index_args_job', name='ragged-index-arguments[%s,%s]' % (list(lv), 'write' if wr else 'read'),
+                      kwargs=dict(lengths=lv, write=wr), sig_prefix='uninit', deadline_s=250 if q else 1500))
     for n in (2, 3):
         for which in ('normalize', 'transpose'):
             J.append(dict(module='harness.C04', func='builder_job', name='%s[n=%d,zero rows allowed]' % (which, n),
